@@ -730,25 +730,25 @@ func (e *lookupEnv) oracleC14(qs []string) {
 				x, f := st.GetI8(q)
 				tv, tfound = int64(x), f
 				if found {
-					gv = int64(v.(int8))
+					gv = reflect.ValueOf(v).Int()
 				}
 			case "i16":
 				x, f := st.GetI16(q)
 				tv, tfound = int64(x), f
 				if found {
-					gv = int64(v.(int16))
+					gv = reflect.ValueOf(v).Int()
 				}
 			case "i32":
 				x, f := st.GetI32(q)
 				tv, tfound = int64(x), f
 				if found {
-					gv = int64(v.(int32))
+					gv = reflect.ValueOf(v).Int()
 				}
 			case "i64":
 				x, f := st.GetI64(q)
 				tv, tfound = x, f
 				if found {
-					gv = v.(int64)
+					gv = reflect.ValueOf(v).Int()
 				}
 			}
 			if found {
@@ -1039,6 +1039,13 @@ func runLookupCase(ctx *Ctx, prop string, lc *LCase, caseIdx int) {
 		qs = genQueries(lc.R.Fork(), lc.Keys, lc.QMax)
 	}
 	enc := lc.Vals.Encoder()
+	if prop == "C14" && caseIdx%3 == 1 && !lc.Exh {
+		// an application's own little-endian integer encoder (same bytes as
+		// encode.I8..I64) that decodes to a defined type: the leaves are
+		// little-endian integers all the same, so the typed getters apply
+		enc = UserLE{Kind: lc.Vals.Kind}
+		ctx.Count("cases_with_a_user_defined_little_endian_encoder", 1)
+	}
 	vslice := lc.Vals.Slice()
 	models := map[bool]*Model{true: NewModel(lc.Keys, lc.Vals, true), false: NewModel(lc.Keys, lc.Vals, false)}
 
@@ -1190,7 +1197,7 @@ func runLookupCase(ctx *Ctx, prop string, lc *LCase, caseIdx int) {
 		// for the three option sets that version could write, three-section for
 		// the default one. The builder is trusted here only as far as C06 does:
 		// the fresh instance is checked by the same oracle in this very case.
-		if !lc.Exh && o.D && lc.Vals.Kind != "none" && lc.Vals.FixedSize() && ((caseIdx+oi)%2 == 0 || prop == "C13") {
+		if !lc.Exh && o.D && (lc.Vals.FixedSize() || (lc.Vals.Kind == "none" && prop != "C09" && prop != "C14")) && ((caseIdx+oi)%2 == 0 || prop == "C13") {
 			if (!o.L && !o.C) || (o.C && !o.I && !o.L) {
 				if ls, err := legacyStream0510(stream, []string{"0.5.10", "0.5.11"}[caseIdx%2]); err == nil {
 					if lg, err, pv, _ := loadTrie(enc, ls); err == nil && pv == nil {
@@ -1207,7 +1214,7 @@ func runLookupCase(ctx *Ctx, prop string, lc *LCase, caseIdx int) {
 					}
 				}
 			}
-			if !o.I && !o.L && !o.C {
+			if !o.I && !o.L && !o.C && lc.Vals.Kind != "none" {
 				if ls, ok := legacyStream3(lc.Keys, lc.Vals, oldVariants[(caseIdx/2)%len(oldVariants)]); ok {
 					if lg, err, pv, _ := loadTrie(enc, ls); err == nil && pv == nil {
 						insts = append(insts, Inst{"legacy-3sec-loaded", lg})
